@@ -55,3 +55,15 @@ pub fn match_header_value_vectored(bytes: &mut Bytes) {
         }
     }
 }
+
+/// Verification hook: overwrite the cached runtime backend id (0 = not yet detected).
+#[cfg(httparse_verif)]
+pub fn verif_set_runtime_feature(feature: u8) {
+    RUNTIME_FEATURE.store(feature, Ordering::Relaxed);
+}
+
+/// Verification hook: read the cached runtime backend id.
+#[cfg(httparse_verif)]
+pub fn verif_runtime_feature() -> u8 {
+    RUNTIME_FEATURE.load(Ordering::Relaxed)
+}
